@@ -55,7 +55,14 @@ pub struct RunCfg {
 pub enum HistStep {
     /// Run with `cfg`, requesting the outputs at these indices of `outputs`,
     /// with input data variant `variant`.
-    Run { cfg: RunCfg, outputs: Vec<usize>, variant: u64 },
+    Run {
+        cfg: RunCfg,
+        outputs: Vec<usize>,
+        variant: u64,
+        /// Also supply this requested-output value as an input (a different input set, hence a different plan key).
+        #[serde(default)]
+        feed: Option<usize>,
+    },
     /// A run that must fail: input 0 gets an extra dimension.
     BadInput { cfg: RunCfg },
 }
@@ -253,9 +260,10 @@ impl ExecEngine {
             // "Kind|message class": only the kind is compared between runs
             Err(e) if std::env::var("VERIF_DEBUG_GEN").is_ok() => {
                 eprintln!("run error: {e} [{}]", cfg_label(cfg));
-                Err(format!("{}|{}", kind_name(&e.kind()), msg_class(&e.to_string())))
+                Err(format!("{}|{}|{}", kind_name(&e.kind()), msg_class(&e.to_string()), e.to_string().chars().take(160).collect::<String>()))
             }
-            Err(e) => Err(format!("{}|{}", kind_name(&e.kind()), msg_class(&e.to_string()))),
+            // "Kind|message class|message": only the kind is compared between runs
+            Err(e) => Err(format!("{}|{}|{}", kind_name(&e.kind()), msg_class(&e.to_string()), e.to_string().chars().take(160).collect::<String>())),
         })
     }
 
@@ -286,6 +294,13 @@ impl ExecEngine {
             None
         };
         Some(Loaded { plain, prepacked })
+    }
+}
+
+fn brief(r: &RunResult) -> String {
+    match r {
+        Ok(v) => format!("Ok{:?}", v.iter().map(|c| (c.1.clone(), fnv64(&c.2.iter().flat_map(|x| x.to_le_bytes()).collect::<Vec<u8>>()) & 0xffff)).collect::<Vec<_>>()),
+        Err(e) => format!("Err({})", e.splitn(3, '|').take(2).collect::<Vec<_>>().join("|")),
     }
 }
 
@@ -425,7 +440,12 @@ impl Engine for ExecEngine {
                 let mut sel: Vec<usize> = (0..outs.len()).collect();
                 r.shuffle(&mut sel);
                 sel.truncate(k);
-                history.push(HistStep::Run { cfg: random_cfg(&mut r, n_in), outputs: sel, variant: r.below(3) });
+                // only values produced by single-output operators are fed: supplying one output of a multi-output
+                // operator whose other output is still needed makes the request ambiguous (the operator runs and
+                // writes the supplied value again), and which of the two wins is not something C25 speaks about
+                let feedable: Vec<usize> = (0..outs.len()).filter(|i| model.graph.nodes.iter().any(|n| n.outputs.len() == 1 && n.outputs[0] == outs[*i].name)).collect();
+                let feed = if outs.len() > 1 && !feedable.is_empty() && r.chance(1, 3) { Some(feedable[r.usize_below(feedable.len())]) } else { None };
+                history.push(HistStep::Run { cfg: random_cfg(&mut r, n_in), outputs: sel, variant: r.below(3), feed });
             }
         }
         ExecCase { model, inputs, outputs: outs, optimize: r.chance(2, 3), runs, history, note: "seeded".into() }
@@ -556,7 +576,34 @@ impl Engine for ExecEngine {
             // Pure control-flow semantics: both sides without optimisation, so that
             // load-time rewrites (C01, not claimed) cannot decide this verdict.
             let cf_off = if case.optimize { run_ref(&case.model, false, ctx, &mut executions) } else { Some(reference.clone()) };
+            // (c) optimisation must not take away a value that a branch or body captures: the optimised
+            // program may not fail to *plan* a control-flow operator that the unoptimised program runs.
+            if let (true, Some(Ok(_)), Err(e)) = (case.optimize, &cf_off, &reference) {
+                fn cf_names(g: &onnxenc::Graph, out: &mut Vec<String>) {
+                    for n in &g.nodes {
+                        if n.op_type == "If" || n.op_type == "Loop" {
+                            out.push(n.name.clone());
+                        }
+                        for (_, a) in &n.attrs {
+                            if let onnxenc::Attr::Graph(g2) = a {
+                                cf_names(g2, out);
+                            }
+                        }
+                    }
+                }
+                let mut names = Vec::new();
+                cf_names(&case.model.graph, &mut names);
+                let raw = e.splitn(3, '|').nth(2).unwrap_or("");
+                ctx.count("probe:optimised_fails_unoptimised_runs");
+                if kind_of(e) == "PlanningError" && raw.contains("Missing input") && names.iter().any(|n| raw.contains(&format!("for op \"{n}\""))) {
+                    violation = Some(Violation::new(
+                        "C24/optimised-program-lost-a-captured-value",
+                        format!("with optimisation on the run fails with `{raw}` but the unoptimised program runs: a value captured by a branch or body no longer exists"),
+                    ));
+                }
+            }
             match (twin_model, cf_off) {
+                _ if violation.is_some() => {}
                 (None, _) => ctx.count("probe:not_inlinable"),
                 (_, None) => ctx.count("probe:cf_unoptimised_not_runnable"),
                 (Some(twin), Some(cf_off)) => match run_twin(&twin, ctx, &mut executions) {
@@ -672,8 +719,8 @@ impl Engine for ExecEngine {
                 this.run_once(&loaded, &[], &ids, &reference_cfg(), ctx).ok().and_then(|r| r.ok())
             };
             let consts_before = read_consts(self, ctx);
-            let mut first: Option<(RunCfg, Vec<NodeId>, u64, RunResult)> = None;
-            let mut prev: Option<(RunCfg, Vec<usize>, u64, RunResult)> = None;
+            let mut first: Option<(RunCfg, Vec<NodeId>, Vec<(NodeId, Value)>, RunResult)> = None;
+            let mut prev: Option<(RunCfg, Vec<usize>, u64, Option<usize>, RunResult)> = None;
             'hist: for (hi, step) in case.history.iter().enumerate() {
                 match step {
                     HistStep::BadInput { cfg } => {
@@ -699,12 +746,22 @@ impl Engine for ExecEngine {
                             Ok(_) => {}
                         }
                     }
-                    HistStep::Run { cfg, outputs, variant } => {
+                    HistStep::Run { cfg, outputs, variant, feed } => {
                         let ids: Vec<NodeId> = outputs.iter().filter_map(|i| out_ids.get(*i).copied()).collect();
                         if ids.is_empty() {
                             continue;
                         }
-                        let these: Vec<(NodeId, Value)> = case.inputs.iter().zip(&held).map(|(spec, (id, _))| (*id, input_value(spec, *variant))).collect();
+                        let mut these: Vec<(NodeId, Value)> = case.inputs.iter().zip(&held).map(|(spec, (id, _))| (*id, input_value(spec, *variant))).collect();
+                        if let Some(f) = feed.and_then(|f| case.outputs.get(f).map(|v| (f, v))) {
+                            // an intermediate value supplied by the caller: a different input set for the same graph
+                            if let Some(id) = out_ids.get(f.0) {
+                                if !these.iter().any(|(h, _)| h == id) {
+                                    let spec = InputSpec { val: f.1.clone(), seed: 0xfeed, scalar: None };
+                                    these.push((*id, input_value(&spec, *variant)));
+                                    ctx.count("probe:history_run_with_fed_intermediate");
+                                }
+                            }
+                        }
                         let before: Vec<Canon> = these.iter().map(|(_, v)| canon(v)).collect();
                         executions += 1;
                         ctx.count("probe:history_runs");
@@ -729,6 +786,34 @@ impl Engine for ExecEngine {
                         if r.is_ok() && cfg.strategy.is_some() {
                             nontrivial = true;
                         }
+                        // (v) the same call on a freshly loaded model gives the same result: no earlier run
+                        // (with other inputs, another input set, other outputs) may have left anything behind
+                        if hi > 0 {
+                            if let Some(fresh) = self.load(&case.model, case.optimize, cfg.prepack, ctx) {
+                                executions += 1;
+                                if let Ok(rf) = self.run_once(&fresh, &these, &ids, cfg, ctx) {
+                                    ctx.count("probe:compared_with_fresh_model");
+                                    let equal = match (&r, &rf) {
+                                        (Ok(a), Ok(b)) => a.len() == b.len() && a.iter().zip(b).all(|(x, y)| if cfg.threads <= 1 && !cfg.prepack { same_exact(x, y) } else { same_tolerant(x, y) }),
+                                        (Err(a), Err(b)) => kind_of(a) == kind_of(b),
+                                        _ => false,
+                                    };
+                                    if !equal {
+                                        let what = match (&r, &rf) {
+                                            (Ok(_), Ok(_)) => "values",
+                                            (Err(_), Ok(_)) => "fails",
+                                            (Ok(_), Err(_)) => "succeeds",
+                                            _ => "error-kind",
+                                        };
+                                        violation = Some(Violation::new(
+                                            format!("C25/run-affected-later-run/{what}"),
+                                            format!("history step {hi} (outputs {outputs:?}, fed intermediate {feed:?}) differs from the same call on a freshly loaded model: {} vs {} [{}]", brief(&r), brief(&rf), cfg_label(cfg)),
+                                        ));
+                                        break 'hist;
+                                    }
+                                }
+                            }
+                        }
                         // (i) borrowed inputs untouched
                         ctx.count("probe:borrowed_inputs_checked");
                         for (k, (_, v)) in these.iter().enumerate() {
@@ -738,8 +823,8 @@ impl Engine for ExecEngine {
                             }
                         }
                         // (iv) the same run twice in a row
-                        if let Some((pc, po, pv, pr)) = &prev {
-                            if pc == cfg && po == outputs && pv == variant {
+                        if let Some((pc, po, pv, pf, pr)) = &prev {
+                            if pc == cfg && po == outputs && pv == variant && pf == feed {
                                 ctx.count("probe:repeat_pair_compared");
                                 let equal = match (pr, &r) {
                                     (Ok(a), Ok(b)) => a.len() == b.len() && a.iter().zip(b).all(|(x, y)| same_exact(x, y)),
@@ -757,18 +842,17 @@ impl Engine for ExecEngine {
                             }
                         }
                         if first.is_none() {
-                            first = Some((cfg.clone(), ids.clone(), *variant, r.clone()));
+                            first = Some((cfg.clone(), ids.clone(), these.clone(), r.clone()));
                         }
-                        prev = Some((cfg.clone(), outputs.clone(), *variant, r));
+                        prev = Some((cfg.clone(), outputs.clone(), *variant, *feed, r));
                     }
                 }
             }
             // (iii) the first run again, at the end of the history
             if violation.is_none() {
-                if let Some((cfg, ids, variant, r0)) = &first {
+                if let Some((cfg, ids, these, r0)) = &first {
                     let mut c1 = cfg.clone();
                     c1.threads = 1;
-                    let these: Vec<(NodeId, Value)> = case.inputs.iter().zip(&held).map(|(spec, (id, _))| (*id, input_value(spec, *variant))).collect();
                     executions += 1;
                     let again = self.run_once(&loaded, &these, ids, &c1, ctx);
                     if cfg.threads <= 1 {
@@ -817,6 +901,15 @@ impl Engine for ExecEngine {
             let mut c = case.clone();
             c.history.remove(i);
             out.push(c);
+        }
+        for i in 0..case.history.len() {
+            if let HistStep::Run { feed: Some(_), .. } = &case.history[i] {
+                let mut c = case.clone();
+                if let HistStep::Run { feed, .. } = &mut c.history[i] {
+                    *feed = None;
+                }
+                out.push(c);
+            }
         }
         // fewer requested outputs
         if case.outputs.len() > 1 && case.history.is_empty() {
